@@ -127,7 +127,9 @@ BYNAME = f"resolves_to::<AnnotationDataSet>({SETS0}, old(self).dataset_idmap.dat
 NAMEHIT = f"({BYNAME} is Some && live({SETS0}, {BYNAME}.unwrap() as int))"
 # the dataset the data item goes into
 TARGET = f"(if {HIT} {{ {DEN}.unwrap() as int }} else if {NAMEHIT} {{ {BYNAME}.unwrap() as int }} else {{ {SETS0}.len() as int }})"
-EXISTING = f"({HIT} || {NAMEHIT})"
+# a dataset named by a handle or a reference that does not resolve denotes no dataset at all: the request is refused
+REFUSED = f"(!{HIT} && (dataitem.dataset is Handle || dataitem.dataset is Ref))"
+EXISTING = f"({HIT} || (!{REFUSED} && {NAMEHIT}))"
 
 
 def build():
@@ -154,9 +156,10 @@ def build():
     u.impl(A, 'impl AnnotationStore', [
         Fn('insert_data', props=P, ret='r',
            rewrites=[('R-request', r'self\.get_mut\(&dataitem\.dataset\)', '<Self as StoreFor<AnnotationDataSet>>::get_mut__build(self, &dataitem.dataset)'),
-                     ('R-request', r'self\s*\.insert\(AnnotationDataSet::new\(self\.config\(\)\.clone\(\)\)', '<Self as StoreFor<AnnotationDataSet>>::insert(self, AnnotationDataSet::new(vx_clone_config(<Self as Configurable>::config(self)))'),
-                     ('R-request', r'self\.get_mut\(inserted_intid\)', '<Self as StoreFor<AnnotationDataSet>>::get_mut__handle(self, inserted_intid)'),
-                     ('R-expect', r'\.expect\("must exist after insertion"\)', '.unwrap()'),
+                     ('R-outline', r'AnnotationDataSet::new\(self\.config\(\)\.clone\(\)\)', 'AnnotationDataSet::new(vx_clone_config(<Self as Configurable>::config(self)))'),
+                     ('R-request', r'self\s*\.insert\(', '<Self as StoreFor<AnnotationDataSet>>::insert(self, '),
+                     ('R-request', r'self\.get_mut\(inserted_intid\)', '<Self as StoreFor<AnnotationDataSet>>::get_mut__handle(self, inserted_intid)', 'opt'),
+                     ('R-expect', r'\.expect\("must exist after insertion"\)', '.unwrap()', 'opt'),
                      ('R-request', r'<AnnotationStore as StoreFor<AnnotationDataSet>>::has\(self, dataset_id\.as_str\(\)\)', '<Self as StoreFor<AnnotationDataSet>>::has__str(self, dataset_id.as_str())', 'opt'),
                      ('R-request', r'self\.get_mut\(dataset_id\.as_str\(\)\)', '<Self as StoreFor<AnnotationDataSet>>::get_mut__str(self, dataset_id.as_str())', 'opt'),
                      ('R-expect', r'\.expect\("must exist when has\(\) returns true"\)', '.unwrap()', 'opt'),
@@ -173,7 +176,9 @@ def build():
                            f'&& {SETS1}.last().unwrap().sid() == Some({NAME}) '
                            f'&& final(self).dataset_idmap.data@ =~= old(self).dataset_idmap.data@.insert({NAME}, r->Ok_0.0)'),
                ('at_most_one_set', f'{SETS1}.len() == {SETS0}.len() || (!{EXISTING} && {SETS1}.len() == {SETS0}.len() + 1)'),
-               ('vocabulary', f'r is Ok ==> idmap_wf({SETS1}, Some(final(self).dataset_idmap.data@))'),
+               # from the property (C14): a call that fails where a dataset would have had to be created leaves no dataset and no identifier behind
+               ('refused_creates_nothing', f'!{EXISTING} && r is Err ==> {SETS1} == {SETS0} && final(self).dataset_idmap.data@ == old(self).dataset_idmap.data@'),
+               ('unknown_handle_refused', f'{REFUSED} ==> r is Err'),               ('vocabulary', f'r is Ok ==> idmap_wf({SETS1}, Some(final(self).dataset_idmap.data@))'),
            ]),
     ])
     return u
